@@ -46,14 +46,18 @@ instance (t : PType) (typeLen : Nat) (v : Val) : Decidable (valOkT t typeLen v) 
 
 instance (c : Col) (v : Val) : Decidable (ValOk c v) := by unfold ValOk; exact inferInstance
 
-/-- the arrays of one `write_batch` call hold what the counts say: as many dense values as rows
-(REQUIRED, or NULL def_levels) or as definition levels equal to 1 (OPTIONAL), one definition level
-per row, none above the column's maximum, every value of the column's type -/
+/-- the arrays of one `write_batch` call hold what the counts say: as many dense values as entries
+(REQUIRED, or NULL def_levels) or as definition levels equal to 1 (OPTIONAL, REPEATED: an entry with
+definition level 0 — a null, an empty list — carries no value), one definition level and, when
+rep_levels is passed, one repetition level per entry, none above the column's maximum, every value
+of the column's type -/
 structure BatchOk (c : Col) (b : Batch) : Prop where
   valsLen : b.vals.length = numNonNull c b
   defsLen : ∀ ds, b.defs = some ds → ds.length = b.nrows
   defsLe : c.maxDef > 0 → ∀ ds, b.defs = some ds → ∀ d ∈ ds, d ≤ c.maxDef
   valsOk : ∀ v ∈ b.vals, ValOk c v
+  repsLen : ∀ rs, b.reps = some rs → rs.length = b.nrows
+  repsLe : c.maxRep > 0 → ∀ rs, b.reps = some rs → ∀ r ∈ rs, r ≤ c.maxRep
 
 /-- invariant of page builders -/
 structure PageGood (c : Col) (p : Page) : Prop where
@@ -65,6 +69,8 @@ structure PageGood (c : Col) (p : Page) : Prop where
   valsOk : ∀ v ∈ p.values, ValOk c v
   nulls : p.numNulls = (p.defs.filter (· < c.maxDef)).length
   minMax : p.minMax = if hasStats c.ptype then p.values.foldl (FileReal.statsStep c.ptype) none else none
+  repsLen : c.maxRep > 0 → p.reps.length = p.numValues
+  repsLe : ∀ r ∈ p.reps, r ≤ c.maxRep
 
 theorem filter_lt_add_filter_eq (m : Nat) : ∀ (ds : List Nat), (∀ d ∈ ds, d ≤ m) →
     (ds.filter (· < m)).length + (ds.filter (· == m)).length = ds.length
@@ -81,13 +87,45 @@ theorem filter_lt_add_filter_eq (m : Nat) : ∀ (ds : List Nat), (∀ d ∈ ds, 
       omega
 
 theorem pageGood_empty (c : Col) : PageGood c {} := by
-  refine ⟨fun _ => rfl, fun _ => rfl, fun d hd => by simp at hd, fun _ => rfl, ?_, fun v hv => by simp at hv, rfl, ?_⟩
+  refine ⟨fun _ => rfl, fun _ => rfl, fun d hd => by simp at hd, fun _ => rfl, ?_, fun v hv => by simp at hv, rfl, ?_,
+    fun _ => rfl, fun r hr => by simp at hr⟩
   · simp
   · simp
 
+/-- `add_values` keeps one repetition level per entry -/
+theorem addValues_repsLen (D : Deps) (c : Col) (p : Page) (b : Batch)
+    (h : c.maxRep > 0 → p.reps.length = p.numValues) (hb : ∀ rs, b.reps = some rs → rs.length = b.nrows) :
+    c.maxRep > 0 → (addValues D c p b).reps.length = (addValues D c p b).numValues := by
+  intro hm
+  have h' := h hm
+  cases hr : b.reps with
+  | none => simp [addValues, hm, hr, h']
+  | some rs => simp [addValues, hm, hr, h', hb rs hr]
+
+theorem addValues_repsLe (D : Deps) (c : Col) (p : Page) (b : Batch)
+    (h : ∀ r ∈ p.reps, r ≤ c.maxRep) (hb : c.maxRep > 0 → ∀ rs, b.reps = some rs → ∀ r ∈ rs, r ≤ c.maxRep) :
+    ∀ r ∈ (addValues D c p b).reps, r ≤ c.maxRep := by
+  intro r hr
+  by_cases hm : c.maxRep > 0
+  · cases hbr : b.reps with
+    | none =>
+      simp only [addValues, hm, if_true, hbr, List.mem_append, List.mem_replicate] at hr
+      rcases hr with hr | hr
+      · exact h r hr
+      · omega
+    | some rs =>
+      simp only [addValues, hm, if_true, hbr, List.mem_append] at hr
+      rcases hr with hr | hr
+      · exact h r hr
+      · exact hb hm rs hbr r hr
+  · simp only [addValues, hm, if_false] at hr
+    exact h r hr
+
 theorem pageGood_add (o : FileReal.Oracle) (c : Col) (p : Page) (b : Batch) (h : PageGood c p) (hb : BatchOk c b) :
     PageGood c (addValues (deps o) c p b) := by
-  obtain ⟨col, nrows, defs, vals⟩ := b
+  have hR1 := addValues_repsLen (deps o) c p b h.repsLen hb.repsLen
+  have hR2 := addValues_repsLe (deps o) c p b h.repsLe hb.repsLe
+  obtain ⟨col, nrows, defs, vals, reps⟩ := b
   have hv := hb.valsLen
   have hdl := hb.defsLen
   have hdle := hb.defsLe
@@ -97,7 +135,7 @@ theorem pageGood_add (o : FileReal.Oracle) (c : Col) (p : Page) (b : Batch) (h :
     cases defs with
     | none =>
       simp only at hv
-      refine ⟨?_, fun h0 => by omega, ?_, fun h0 => by simpa [addValues, h0] using h.repsNil h0, ?_, ?_, ?_, ?_⟩
+      refine ⟨?_, fun h0 => by omega, ?_, fun h0 => by simpa [addValues, h0] using h.repsNil h0, ?_, ?_, ?_, ?_, hR1, hR2⟩
       · intro _; simp [addValues, hm, h.defsLen hm]
       · intro d hd
         simp only [addValues, hm, if_true, List.mem_append, List.mem_replicate] at hd
@@ -119,7 +157,7 @@ theorem pageGood_add (o : FileReal.Oracle) (c : Col) (p : Page) (b : Batch) (h :
       have hl := hdl ds rfl
       have hle := hdle hm ds rfl
       simp only at hl
-      refine ⟨?_, fun h0 => by omega, ?_, fun h0 => by simpa [addValues, h0] using h.repsNil h0, ?_, ?_, ?_, ?_⟩
+      refine ⟨?_, fun h0 => by omega, ?_, fun h0 => by simpa [addValues, h0] using h.repsNil h0, ?_, ?_, ?_, ?_, hR1, hR2⟩
       · intro _; simp [addValues, hm, h.defsLen hm, hl]
       · intro d hd
         simp only [addValues, hm, if_true, List.mem_append] at hd
@@ -141,7 +179,7 @@ theorem pageGood_add (o : FileReal.Oracle) (c : Col) (p : Page) (b : Batch) (h :
     have hm0 : c.maxDef = 0 := by omega
     have hvn : vals.length = nrows := by
       cases defs <;> simpa [hm] using hv
-    refine ⟨fun h0 => absurd h0 hm, ?_, ?_, fun h0 => by simpa [addValues, h0] using h.repsNil h0, ?_, ?_, ?_, ?_⟩
+    refine ⟨fun h0 => absurd h0 hm, ?_, ?_, fun h0 => by simpa [addValues, h0] using h.repsNil h0, ?_, ?_, ?_, ?_, hR1, hR2⟩
     · intro _; simp [addValues, hm, h.defsNil hm0]
     · intro d hd
       simp only [addValues, hm, if_false] at hd
@@ -162,7 +200,11 @@ theorem pageGood_add (o : FileReal.Oracle) (c : Col) (p : Page) (b : Batch) (h :
 
 /-- the page predicate threaded through the writer -/
 def goodPred (o : FileReal.Oracle) : PagePred (deps o) :=
-  { P := PageGood, Q := BatchOk, empty := pageGood_empty, add := pageGood_add o }
+  { P := PageGood, Q := BatchOk, empty := pageGood_empty, add := pageGood_add o,
+    repsWF := fun c p h h0 => by
+      by_cases hm : c.maxRep = 0
+      · exact h.repsNil hm
+      · exact List.eq_nil_of_length_eq_zero ((h.repsLen (by omega)).trans h0) }
 
 /-! ### levels -/
 
@@ -351,6 +393,35 @@ theorem assemble_flat (m : Nat) : ∀ (ds : List Nat) (vs : List Val),
       | cons v vs' => simp only [assemble_flat m r vs']
     · simp only [hd, if_false, assemble_flat m r vs]
 
+/-- the reader's `assemble` and the table's `specEntriesR` are the same function -/
+theorem assemble_eq (m : Nat) : ∀ (rs ds : List Nat) (vs : List Val),
+    assemble m rs ds vs = specEntriesR m rs ds vs
+  | [], _, _ => by simp [assemble, specEntriesR]
+  | _ :: _, [], _ => by simp [assemble, specEntriesR]
+  | r :: rs, d :: ds, vs => by
+    simp only [assemble, specEntriesR]
+    by_cases hd : d = m
+    · simp only [hd, if_true]
+      cases vs with
+      | nil => simp only [assemble_eq m rs ds []]
+      | cons v vs' => simp only [assemble_eq m rs ds vs']
+    · simp only [hd, if_false, assemble_eq m rs ds vs]
+
+/-- for a non-repeated column the entries are those of `specEntries` (repetition level 0) -/
+theorem specEntriesR_flat (m : Nat) (ds : List Nat) (vs : List Val) :
+    specEntriesR m (List.replicate ds.length 0) ds vs = specEntries m ds vs := by
+  rw [← assemble_eq]; exact assemble_flat m ds vs
+
+/-- the repetition levels the reader decodes from a written page -/
+theorem specReps_pageData (c : Col) (p : Page) :
+    specReps c (pageData p) = if c.maxRep = 0 then List.replicate p.numValues 0 else p.reps := rfl
+
+theorem specReps_length (c : Col) (p : Page) (hg : PageGood c p) : (specReps c (pageData p)).length = p.numValues := by
+  rw [specReps_pageData]
+  by_cases h0 : c.maxRep = 0
+  · simp [h0]
+  · simp only [h0, if_false]; exact hg.repsLen (by omega)
+
 theorem specDefs_length (c : Col) (p : Page) (hg : PageGood c p) : (specDefs c (pageData p)).length = p.numValues := by
   rw [specDefs_pageData]
   by_cases h0 : c.maxDef = 0
@@ -367,22 +438,30 @@ theorem nonNullCount_specDefs (c : Col) (p : Page) (hg : PageGood c p) :
     simp [h0, this]
 
 /-- **page-body stage**: the independent reader decodes the body of a written page (under the
-header it carries) to the entries of the page's content. -/
+header it carries) to the entries of the page's content — repetition levels (REPEATED columns),
+definition levels, PLAIN values, true statistics. -/
 theorem decodeDataPage_written (o : FileReal.Oracle) (c : Col) (p : Page) (hg : PageGood c p)
-    (hrep : c.maxRep = 0) (hdef : c.maxDef < 2 ^ 32) (hrows : 0 < p.numValues)
+    (hrep : c.maxRep < 2 ^ 32) (hdef : c.maxDef < 2 ^ 32) (hrows : 0 < p.numValues)
+    (hlenR : 0 < p.reps.length → (Rle.encode (FileReal.bitWidth c.maxRep) p.reps).length < 2 ^ 32)
     (hlen : 0 < p.defs.length → (Rle.encode (FileReal.bitWidth c.maxDef) p.defs).length < 2 ^ 32) :
     decodeDataPage (leafOf c) none ⟨p.numValues, 0, 3, 3, (pageStatsOf p).map statsMetaOf⟩ (pageBody (deps o) c p) =
       .ok (specChunkOf c (pageData p)) := by
   have hvals := plainValues_written c p.values hg.valsOk
   have hnn := nonNullCount_specDefs c p hg
   have hst := checkStats_written c p hg
-  have hsl := specDefs_length c p hg
-  have hasm := assemble_flat c.maxDef (specDefs c (pageData p)) p.values
-  rw [hsl] at hasm
-  have hreps : p.reps = [] := hg.repsNil hrep
   -- the two level stages
-  have hrl : ∀ bs, readLevels (leafOf c).maxRep p.numValues bs = .ok (List.replicate p.numValues 0, bs) := by
-    intro bs; simp [readLevels, leafOf, hrep]
+  have hrl : ∀ rest, readLevels c.maxRep p.numValues
+      ((if 0 < p.reps.length then FileReal.levels c.maxRep p.reps else []) ++ rest) =
+      .ok (specReps c (pageData p), rest) := by
+    intro rest
+    rw [specReps_pageData]
+    by_cases h0 : c.maxRep = 0
+    · simp [readLevels, h0, hg.repsNil h0]
+    · have hl := hg.repsLen (by omega)
+      have hpos : 0 < p.reps.length := by omega
+      simp only [h0, hpos, if_true, if_false]
+      rw [← hl]
+      exact readLevels_levels c.maxRep h0 hrep p.reps hg.repsLe rest (hlenR hpos)
   have hdl : ∀ rest, readLevels c.maxDef p.numValues
       ((if 0 < p.defs.length then FileReal.levels c.maxDef p.defs else []) ++ rest) =
       .ok (specDefs c (pageData p), rest) := by
@@ -396,14 +475,16 @@ theorem decodeDataPage_written (o : FileReal.Oracle) (c : Col) (p : Page) (hg : 
       rw [← hl]
       exact readLevels_levels c.maxDef h0 hdef p.defs hg.defsLe rest (hlen hpos)
   have hbody : pageBody (deps o) c p =
-      (if p.defs.length > 0 then FileReal.levels c.maxDef p.defs else []) ++
-        (if c.ptype = .boolean then FileReal.plainBools p.values else FileReal.plain c.ptype c.typeLen p.values) := by
-    simp [pageBody, hreps, deps]
+      (if 0 < p.reps.length then FileReal.levels c.maxRep p.reps else []) ++
+      ((if 0 < p.defs.length then FileReal.levels c.maxDef p.defs else []) ++
+        (if c.ptype = .boolean then FileReal.plainBools p.values else FileReal.plain c.ptype c.typeLen p.values)) := by
+    simp [pageBody, deps, List.append_assoc]
   have hmd : (leafOf c).maxDef = c.maxDef := rfl
+  have hmr : (leafOf c).maxRep = c.maxRep := rfl
   unfold decodeDataPage
-  simp only [hbody, legalEncoding, bind, Except.bind, pure, Except.pure, hrl, hmd]
+  simp only [hbody, legalEncoding, bind, Except.bind, pure, Except.pure, hmd, hmr, hrl]
   simp only [hdl, hnn, readValues, hvals, hst]
   have hpv : (pageData p).vals = p.values := rfl
-  simp [specChunkOf, hst, hasm, hpv]
+  simp [specChunkOf, hst, assemble_eq, hpv]
 
 end Carquet.Proofs.SpecWriter
